@@ -67,6 +67,7 @@ if __name__ == "__main__":
     E["fixed-C13-insert_style-name-argument"] = ("C13", [{"op": "init", "source": "template:text"}, {"op": "ins_style", "family": "list", "n": 1, "target": "main", "kind": "common", "name": "simA", "name_via": "arg"}, {"op": "ins_style", "family": "table-cell", "n": 2, "target": "main", "kind": "default", "name": "simB", "name_via": "arg"}], "pass")
     E["fixed-C15-markdown-export-optimizes-live-tables"] = ("C15", [{"op": "init", "source": "template:text"}, {"op": "edit", "kind": "table", "n": 6}, {"op": "read", "entries": ["doc.to_markdown"]}], "pass")
     E["fixed-C20-toc-entry-trailing-line-break"] = ("C20", [{"op": "init", "toc_at": "first", "outline": 0}, {"op": "add_heading", "n": 1, "level": 1, "text": "Title 1"}, {"op": "fill", "n": 2, "via": "attached", "default_styles": True}], "pass")
+    E["C04-original-reads-overwritten-source-at-save"] = ("C04", [{"op": "init", "source": "sample:span_style.odt", "how": "path", "salt": 7}, SAVE(target="inplace"), {"op": "clone_swap"}, {"op": "add_file", "via": "chunked", "content": 2}, SAVE(target="existing", existing=0), {"op": "save_other"}], "violation")
     for fid, ent in E.items():
         prop, ops, expect = ent[:3]
         cfg = ent[3] if len(ent) > 3 else None
